@@ -14,8 +14,8 @@ class Path(object):
         self.outputs, self.state, self.cons, self.preds, self.dead, self.events = [], state, cons, [], None, []
 
 
-def run_sequence(F, model, roles, code_state, cons, inputs):
-    """inputs: ('feed', status, d1, d2) | ('poll', ch term, want_expired True/False/None) | ('reset',)
+def run_sequence(F, model, roles, code_state, cons, inputs, k=0):
+    """inputs: ('feed', status, d1, d2) | ('poll', ch term, want_expired True/False/None) | ('reset',), all on channel k
     -> list of Path; a path with .dead set ended in a non-returning outcome"""
     paths = [Path(code_state, dict(cons))]
     for inp in inputs:
@@ -25,19 +25,19 @@ def run_sequence(F, model, roles, code_state, cons, inputs):
                 nxt.append(p)
                 continue
             if inp[0] == 'feed':
-                I, outs = A.run_step(F, model, 'feed', p.state, p.cons, inp[1], inp[2], inp[3])
+                I, outs = A.run_step(F, model, 'feed', p.state, p.cons, inp[1], inp[2], inp[3], k=k)
             elif inp[0] == 'poll':
                 c2 = dict(p.cons)
-                I, outs = A.run_step(F, model, 'poll', p.state, c2)
+                I, outs = A.run_step(F, model, 'poll', p.state, c2, k=k)
             else:
-                I, outs = A.run_step(F, model, 'reset', p.state, p.cons)
+                I, outs = A.run_step(F, model, 'reset', p.state, p.cons, k=k)
             for o in outs:
                 q = Path(None, o.st.cons)
                 q.outputs = list(p.outputs)
                 q.preds = list(p.preds) + [list(o.st.preds)]
                 q.events = list(p.events) + [list(o.st.events)]
-                if o.kind != 'return':
-                    q.dead = '%s outcome at step %d: %s' % (o.kind, len(p.outputs) + 1, o.why)
+                if o.kind != 'return' or o.interference:
+                    q.dead = '%s outcome at step %d: %s' % (o.kind, len(p.outputs) + 1, o.interference or o.why)
                     q.state = p.state
                     nxt.append(q)
                     continue
@@ -45,17 +45,36 @@ def run_sequence(F, model, roles, code_state, cons, inputs):
                     lt = [pr for pr in o.st.preds if pr[0] == 'lt']
                     if lt and (lt[0][2] is True) == inp[2]:
                         continue      # recorded "elapsed < timeout" contradicts the scenario
-                outs_m = A.extract_outputs(F, roles, o.value) if inp[0] != 'reset' else []
+                outs_m = A.extract_outputs(F, roles, o.value, o.st) if inp[0] != 'reset' else []
                 if outs_m is None:
                     q.dead = 'malformed result %r' % (o.value,)
                     q.state = p.state
                     nxt.append(q)
                     continue
                 q.outputs.append(outs_m)
-                q.state = o.st.root().locals['self']
+                q.state = o.new_state
                 nxt.append(q)
-        paths = nxt
+        paths = _dedupe(nxt)
     return paths
+
+
+def _dedupe(paths):
+    """paths that reached the same state with the same reports under the same constraints are one path
+    (equivalent ways through the default methods of the message trait would otherwise multiply per step)"""
+    from .interp import val_key
+    seen, out = set(), []
+    for p in paths:
+        try:
+            k = (p.dead, val_key(p.state) if p.state is not None else None, repr(p.outputs),
+                 tuple(sorted((repr(t), v.key()) for t, v in p.cons.items())), repr(p.preds))
+        except Exception:       # noqa
+            out.append(p)
+            continue
+        if k in seen:
+            continue
+        seen.add(k)
+        out.append(p)
+    return out
 
 
 def cc_status(ch_term, cons):
